@@ -1,16 +1,20 @@
 #!/usr/bin/env python3
 """usage: seedtest.py <property id> <patch.diff> [tier]  — apply a seeded change to /repo, run the check, revert."""
-import subprocess, sys, time
+import os, subprocess, sys, time
+LAB = os.environ.get("SEEDLAB")          # optional: a private pair of worktrees <lab>/repo, <lab>/verif so that /repo stays untouched
+REPO = LAB + "/repo" if LAB else "/repo"
+VERIF = LAB + "/verif" if LAB else "/verif"
+ENV = dict(os.environ, VERIF_REPO=REPO)
 prop, patch = sys.argv[1], sys.argv[2]
 tier = sys.argv[3] if len(sys.argv) > 3 else "quick"
-st = subprocess.run(["git", "-C", "/repo", "status", "--porcelain"], capture_output=True, text=True).stdout.strip()
-assert st == "", "/repo not clean: " + st
-r = subprocess.run(["git", "-C", "/repo", "apply", patch], capture_output=True, text=True)
+st = subprocess.run(["git", "-C", REPO, "status", "--porcelain"], capture_output=True, text=True).stdout.strip()
+assert st == "", REPO + " not clean: " + st
+r = subprocess.run(["git", "-C", REPO, "apply", patch], capture_output=True, text=True)
 if r.returncode != 0:
     print("patch does not apply:", r.stderr); sys.exit(2)
 t0 = time.time()
 try:
-    p = subprocess.run(["./check", prop, "--tier", tier], cwd="/verif", capture_output=True, text=True)
+    p = subprocess.run(["./check", prop, "--tier", tier], cwd=VERIF, env=ENV, capture_output=True, text=True)
     out = p.stdout + p.stderr
     lines = [l for l in out.split("\n") if l.startswith("VIOLATION") or "] OK " in l or l.startswith("KNOWN")]
     print(f"{prop} {patch}: rc={p.returncode} {time.time()-t0:.0f}s")
@@ -18,5 +22,5 @@ try:
     v = [l for l in out.split("\n") if "violation:" in l]
     for l in v[:2]: print("    >", l[:400])
 finally:
-    subprocess.run(["git", "-C", "/repo", "checkout", "--", "."])
-    subprocess.run(["git", "-C", "/repo", "clean", "-fdq", "--", "lib", "app", "test"])
+    subprocess.run(["git", "-C", REPO, "checkout", "--", "."])
+    subprocess.run(["git", "-C", REPO, "clean", "-fdq", "--", "lib", "app", "test"])
